@@ -71,22 +71,24 @@ pub fn all_memmem<const NLEN: usize, const HCAP: usize>(mode: u8, part: u8) {
         return;
     }
     // iterators (borrowed), as_ref, clone of a borrowed finder
-    let mut it = f.find_iter(h);
-    let a = it.next();
-    assert!(a == r, "oracle: first find_iter item differs from find");
-    let _ = it.next();
-    let fr = memmem::FinderRev::new(n);
-    let mut rit = fr.rfind_iter(h);
-    let b = rit.next();
-    crate::oracle::check_rightmost(h, n, b);
-    let g = f.as_ref();
-    assert!(g.find(h) == r, "oracle: as_ref differs");
-    let mut it2 = memmem::find_iter(h, n);
-    let _ = it2.next();
-    let mut it3 = memmem::rfind_iter(h, n);
-    let _ = it3.next();
-    let b2 = memmem::FinderBuilder::new().build_forward(n);
-    assert!(b2.find(h) == r, "oracle: builder finder differs");
+    if part == 1 {
+        let mut it = f.find_iter(h);
+        let a = it.next();
+        assert!(a == r, "oracle: first find_iter item differs from find");
+        let g = f.as_ref();
+        let _ = g.needle();
+        let mut it2 = memmem::find_iter(h, n);
+        assert!(it2.next() == r, "oracle: memmem::find_iter differs");
+    } else {
+        let fr = memmem::FinderRev::new(n);
+        let mut rit = fr.rfind_iter(h);
+        let b = rit.next();
+        crate::oracle::check_rightmost(h, n, b);
+        let mut it3 = memmem::rfind_iter(h, n);
+        assert!(it3.next() == b, "oracle: memmem::rfind_iter differs");
+        let b2 = memmem::FinderBuilder::new().build_forward(n);
+        let _ = b2.needle();
+    }
     kani::cover!(r.is_some(), "occurrence");
 }
 
@@ -137,7 +139,7 @@ pub fn long_needle_noalloc<const HLEN: usize>(family: u8) {
 /// Searching and iterating with an OWNED finder allocates nothing either
 /// (only the owning conversion itself does).
 #[cfg(kani)]
-pub fn owned_finder_use<const NLEN: usize, const HCAP: usize>() {
+pub fn owned_finder_use<const NLEN: usize, const HCAP: usize>(rev: bool) {
     force(1);
     let nb: [u8; NLEN] = kani::any();
     let (hb, hlen) = sym_hay::<HCAP>(0, HCAP);
@@ -145,16 +147,19 @@ pub fn owned_finder_use<const NLEN: usize, const HCAP: usize>() {
     let (f, fr) = allow_alloc(|| {
         (memmem::Finder::new(&nb[..]).into_owned(), memmem::FinderRev::new(&nb[..]).into_owned())
     });
-    let r = f.find(h);
-    crate::oracle::check_leftmost(h, &nb[..], r);
-    let mut it = f.find_iter(h);
-    assert!(it.next() == r, "oracle: first find_iter item differs from find");
-    let rr = fr.rfind(h);
-    let mut rit = fr.rfind_iter(h);
-    assert!(rit.next() == rr, "oracle: first rfind_iter item differs from rfind");
-    let g = f.as_ref();
-    assert!(g.find(h) == r, "oracle: as_ref differs");
-    kani::cover!(r.is_some(), "occurrence");
+    if rev {
+        let mut rit = fr.rfind_iter(h);
+        let b = rit.next();
+        crate::oracle::check_rightmost(h, &nb[..], b);
+        kani::cover!(b.is_some(), "occurrence");
+    } else {
+        let mut it = f.find_iter(h);
+        let a = it.next();
+        crate::oracle::check_leftmost(h, &nb[..], a);
+        let g = f.as_ref();
+        let _ = g.needle();
+        kani::cover!(a.is_some(), "occurrence");
+    }
     core::mem::forget(f);
     core::mem::forget(fr);
 }
@@ -214,7 +219,9 @@ inst_noalloc!(na_memmem_iters_n0, [props=C17 tier=quick cfg=x86std t=1500 role=n
 inst_noalloc!(na_memmem_iters_n2, [props=C17 tier=quick cfg=x86std t=1500 role=noalloc-memmem-iterators uw=@RK;@TWNEW;@TWOFF;with_ranker:6;oracle:6;@PP;@MEMCHR;find_prefilter.0:2;clone:6;from:6], 3, all_memmem::<2, 4>(1, 1));
 inst_noalloc!(na_memmem_n2_rev, [props=C17 tier=quick cfg=x86std t=1500 role=noalloc-memmem uw=@RK;@TWNEW;@TWOFF;with_ranker:6;oracle:6;@PP;@MEMCHR;find_prefilter.0:2;clone:6;from:6], 3, all_memmem::<2, 6>(1, 2));
 inst_noalloc!(na_memmem_n0_rev, [props=C17 tier=quick cfg=x86std t=1500 role=noalloc-memmem uw=@RK;@TWNEW;@TWOFF;with_ranker:6;oracle:6;@PP;@MEMCHR;find_prefilter.0:2;clone:6;from:6], 3, all_memmem::<0, 6>(1, 2));
-inst_noalloc!(na_owned_use_n2, [props=C17 tier=quick cfg=x86std t=1500 role=noalloc-owned-finder uw=@RK;@TWNEW;@TWOFF;with_ranker:6;oracle:6;@PP;@MEMCHR;find_prefilter.0:2;clone:6;from:6], 3, owned_finder_use::<2, 5>());
+inst_noalloc!(na_owned_use_n2, [props=C17 tier=quick cfg=x86std t=1500 role=noalloc-owned-finder uw=@RK;@TWNEW;@TWOFF;with_ranker:6;oracle:6;@PP;@MEMCHR;find_prefilter.0:2;clone:6;from:6], 3, owned_finder_use::<2, 5>(false));
+inst_noalloc!(na_owned_use_rev_n2, [props=C17 tier=quick cfg=x86std t=1500 role=noalloc-owned-finder uw=@RK;@TWNEW;@TWOFF;with_ranker:6;oracle:6;@PP;@MEMCHR;find_prefilter.0:2;clone:6;from:6], 3, owned_finder_use::<2, 5>(true));
+inst_noalloc!(na_memmem_riters_n2, [props=C17 tier=quick cfg=x86std t=1500 role=noalloc-memmem-iterators uw=@RK;@TWNEW;@TWOFF;with_ranker:6;oracle:6;@PP;@MEMCHR;find_prefilter.0:2;clone:6;from:6], 3, all_memmem::<2, 4>(1, 3));
 inst_noalloc!(na_oneshot_n2_h17, [props=C17 tier=quick cfg=x86std t=1500 role=noalloc-oneshot-mid uw=is_equal_raw:3;Hash:4;rabinkarp::Finder::new:4;rabinkarp::FinderRev::new:4;find_raw:18;rfind_raw:18;oracle:4], 3, oneshot_mid::<2, 17>());
 inst_noalloc!(na_oneshot_n3_h40, [props=C17 tier=thorough cfg=x86std t=3600 role=noalloc-oneshot-mid uw=is_equal_raw:3;Hash:5;rabinkarp::Finder::new:5;rabinkarp::FinderRev::new:5;find_raw:40;rfind_raw:40;oracle:5], 3, oneshot_mid::<3, 40>());
 inst_noalloc!(na_witness_into_owned, [props=C17 tier=quick cfg=x86std t=600 role=alloc-trap-witness expect=fail:heap_allocation_reached uw=@RK;@TWNEW;@TWOFF;with_ranker:6;oracle:6;@PP;clone:6;from:6], 3, witness_into_owned());
